@@ -5,7 +5,7 @@ import time
 
 from . import common as C
 
-ALL_LISTS = ["P1", "P2", "P3", "P4", "P5", "P6", "P7", "P8", "P9", "P10", "P11", "P12", "P13", "P14", "P15", "F1", "F2", "F3", "F4", "F5", "F6", "F7", "F8", "F9", "F10", "F11", "F12", "V1", "V2", "V3", "V4", "V5", "V6", "V7",
+ALL_LISTS = ["P1", "P2", "P3", "P4", "P5", "P6", "P7", "P8", "P9", "P10", "P11", "P12", "P13", "P14", "P15", "P16", "F1", "F2", "F3", "F4", "F5", "F6", "F7", "F8", "F9", "F10", "F11", "F12", "F13", "V1", "V2", "V3", "V4", "V5", "V6", "V7",
              "V8", "V9", "V10", "V11", "V12", "V13", "V14", "V15", "V16", "M1", "M2", "M3", "M4"]
 TRACKED = ["P3", "P4", "P5", "P8", "P12", "F11", "F3", "F4", "F5", "F6", "F9", "V3", "V4", "V7", "V9", "V10", "V12", "V16", "M2", "M3"]
 # lists of trivial value types for the "never clobbered alive" clause of C06 (observable through the values only)
@@ -184,7 +184,7 @@ def spec(prop, tier):
             [R(l, "AE", "c10", depth=4, junk=1, fault_ops=2) for l in ("P1", "F1", "F3", "V1", "V3", "V5", "M1", "M2")] + \
             pair_runs(["F1", "F3", "V1", "V3", "V5", "M1", "M2", "M4"], ["AE", "NP"], tier, 5, nmax=3)
     if prop == "C11":
-        pl = ["P1", "P3", "P4", "P14", "P15", "F1", "F3", "F4", "F5", "V1", "V3", "M2"]
+        pl = ["P1", "P3", "P4", "P14", "P15", "P16", "F1", "F3", "F4", "F5", "F13", "V1", "V3", "M2"]
         runs = [R(l, "AE", "proxy", nmax=3 if q else 4, cmax=1, bmax=4, depth=3 if q else 4, junk=1, fixed="2") for l in pl]
         # long runs of trivially assignable/swappable fields: byte extents 8, 16, 32, 64 (and 15, 33 for F5's byte spans)
         # hit the block sizes a byte-swap or memmove implementation may special-case
@@ -204,7 +204,7 @@ def spec(prop, tier):
                 [r for r in elem_runs(["F3", "V1", "V3"], ["NP"], tier, 4) if r["arena1"] == 1] + \
                 [r for r in elem_runs(["F3", "V1", "V3"], ["NP"], tier, 3) if r["arena1"] == 0] + \
                 elem_runs(["F1", "F4", "V5", "M1", "M2", "M3"], ["AE", "NP"], tier, 3) + \
-                elem_runs(["V1", "V3", "F3"], ["PP", "T100"], tier, 3) + elem_runs(["V14", "V15"], ["AE"], tier, 3) + elem_runs(["P12", "F11", "F6", "P5"], ["AE", "NP"], tier, 3)
+                elem_runs(["V1", "V3", "F3"], ["PP", "T100", "T010"], tier, 3) + elem_runs(["P16", "F13"], ["AE"], tier, 3) + elem_runs(["V14", "V15"], ["AE"], tier, 3) + elem_runs(["P12", "F11", "F6", "P5"], ["AE", "NP"], tier, 3)
         return elem_runs(["F1", "F3", "F4", "V1", "V3", "V5", "M2", "M3"], ["AE", "NP", "PP", "T100", "T010"], tier, 4) + \
             elem_runs(["P5", "P12", "F6", "F11", "V10", "V14", "V15", "V16", "P8", "F9"], ["AE", "NP"], tier, 3)
     if prop == "C17":
